@@ -14,7 +14,7 @@ import (
 func init() {
 	register(&Property{
 		ID:          "C20",
-		Explanation: "A per-middleware local contract; compositionality makes the stack property follow. R1 (once or intervene): for each of the eight middlewares (stream, trace, connlimit, ratelimit, cbreaker, roundrobin, rebalancer, buffer) the number of events 'the wrapped handler is invoked' plus 'the middleware answers itself (error handler / fallback)' is exactly 1 on every path from entry to every normal return (event counting over the CFG, helper methods lifted through must-summaries); for the buffer the emission count of C07.R2 is used (handler >= 1 times, exactly one response); the connection limiter's slot is returned by defer so an aborted handler cannot turn later pass-through requests into interventions. R2 (what is handed down): the writer argument is the incoming writer or an approved wrapper built from it (utils.ProxyWriter, the buffer's recorder), the request argument is the incoming request, a shallow copy whose only overwritten field is URL (balancers), or the buffer's copy (C06). R3 (wrapper completeness): utils.ProxyWriter implements Flush, Hijack and CloseNotify, each delegating to the same-named method of the wrapped writer on the type-assertion-ok edge with no further condition; Write/WriteHeader/Header pass arguments and results through; the buffer's recorder delegates Hijack/CloseNotify and sets its hijacked flag only when the hijack succeeded. R4 (intervention tables): rate limiter -> 429, connection limiter -> 429, breaker default fallback -> 503, buffer size handler -> 413, each one WriteHeader followed by a body write, other errors delegated to the standard handler (C16.R1). R5: headers are relayed by adding to the client writer's header map (utils.CopyHeaders is a full-range merge that neither aliases nor overrides; the buffer's relay shape is C07.R2). R6 (= C03.R10): the limiter's bookkeeping call cannot fail for any configured rate. R7 (= C06.R6): the verbose request dump only reads the request. R8 (= C09.R4): no middleware re-acquires a lock it holds.",
+		Explanation: "A per-middleware local contract; compositionality makes the stack property follow. R1 (once or intervene): for each of the eight middlewares (stream, trace, connlimit, ratelimit, cbreaker, roundrobin, rebalancer, buffer) the number of events 'the wrapped handler is invoked' plus 'the middleware answers itself (error handler / fallback)' is exactly 1 on every path from entry to every normal return (event counting over the CFG, helper methods lifted through must-summaries); for the buffer the emission count of C07.R2 is used (handler >= 1 times, exactly one response); the connection limiter's slot is returned by defer so an aborted handler cannot turn later pass-through requests into interventions. R2 (what is handed down): the writer argument is the incoming writer or an approved wrapper built from it (utils.ProxyWriter, the buffer's recorder), the request argument is the incoming request, a shallow copy whose only overwritten field is URL (balancers), or the buffer's copy (C06). R3 (wrapper completeness): utils.ProxyWriter implements Flush, Hijack and CloseNotify, each delegating to the same-named method of the wrapped writer on the type-assertion-ok edge with no further condition; Write/WriteHeader/Header pass arguments and results through; the buffer's recorder delegates Hijack/CloseNotify and sets its hijacked flag only when the hijack succeeded. R4 (intervention tables): rate limiter -> 429, connection limiter -> 429, breaker default fallback -> 503, buffer size handler -> 413, each one WriteHeader followed by a body write, other errors delegated to the standard handler (C16.R1). R5: headers are relayed by adding to the client writer's header map (utils.CopyHeaders is a full-range merge that neither aliases nor overrides; the buffer's relay shape is C07.R2). R6 (= C03.R10): the limiter's bookkeeping call cannot fail for any configured rate. R7 (= C06.R6): the verbose request dump only reads the request. R8 (= C09.R4): no middleware re-acquires a lock it holds. R3 also: ProxyWriter records the last status and its constructors wrap the writer they are given. R9 (= C19.R1/R2), R10 (= C09.R1 for the breaker's fallback / side-effect types).",
 		NotDecided: []string{
 			"byte equality of relayed bodies (the wrappers pass slices through); HTTP/2 push and ResponseController unwrapping",
 		},
@@ -561,5 +561,6 @@ func mutantsC20() []Mutant {
 		{Name: "ttl-without-plus-one", File: "ratelimit/tokenlimiter.go", Old: "int(bucketSet.maxPeriod/clock.Second)*10+1)", New: "int(bucketSet.maxPeriod/clock.Second)*10)", Expect: "C20.R6"},
 		{Name: "dump-redacts-live-headers", File: "utils/dumpreq.go", Old: "\trc.Header = r.Header\n", New: "\trc.Header = r.Header\n\trc.Header.Del(\"Authorization\")\n", Expect: "C20.R7"},
 		{Name: "string-takes-rlock", File: "cbreaker/cbreaker.go", Old: "func (c *CircuitBreaker) String() string {\n", New: "func (c *CircuitBreaker) String() string {\n\tc.m.RLock()\n\tdefer c.m.RUnlock()\n", Expect: "C20.R8"},
+		{Name: "proxywriter-unwraps-nested", File: "utils/netutils.go", Old: "\treturn &ProxyWriter{\n\t\tw:   w,\n", New: "\tif inner, ok := w.(*ProxyWriter); ok {\n\t\tw = inner.w\n\t}\n\treturn &ProxyWriter{\n\t\tw:   w,\n", Expect: "C20.R3"},
 	}
 }
